@@ -505,6 +505,16 @@ fn mutations(sp: &Spend, ks: &Keys, form: usize, fam: &Family) -> Vec<(String, S
             out.push((format!("sig-by-another-key{}", tag), clone(&|s| s.unlocking[p] = push(&by_other))));
         }
         out.push((format!("sig-empty{}", tag), clone(&|s| s.unlocking[p] = Tok::Op(0))));
+        // malleated encodings of the SAME (r, s): a stray byte between the DER body and the flag byte (flag-valued and not) -
+        // the item is no longer "DER followed by one flag byte", so it is not a valid signature whatever r and s are
+        for (name, stray) in [("flag-valued", if flag as u8 == 0x41 { 0x01u8 } else { 0x41 }), ("same-as-flag", flag as u8), ("zero", 0x00)] {
+            out.push((format!("sig-stray-byte-before-flag{}:{}", tag, name), clone(&|s| {
+                let mut x = sig.clone();
+                let l = x.len();
+                x.insert(l - 1, stray);
+                s.unlocking[p] = push(&x);
+            })));
+        }
     }
     out
 }
